@@ -181,7 +181,8 @@ def _exchange_chunk(job):
                         cd = client_decode(w)
                         if cd is not None:
                             obs['client'] = cd
-                        if fam in ('soap11', 'soap12'):
+                        # (zeep reads an empty xsd:string element as None: it cannot be the oracle for '' values)
+                        if fam in ('soap11', 'soap12') and '["leaf", ""]' not in json.dumps(c['rvals']):
                             zargs, zd = zeep_decode(w)
                             obs['zeep'] = zd
                             if zargs is not None:
